@@ -82,6 +82,15 @@ def pred_conds(p, i, b):
     return out
 
 
+def packet_buf(p):
+    """Identity of the datagram under construction on this path: the buffer the header is encoded into."""
+    pb = getattr(p, '_packet_buf', 0)
+    if pb == 0:
+        enc = [c for c in p.calls() if c['decl'] == 'codec::Codec::encode_header']
+        pb = p._packet_buf = buffer_id(enc[0]['args'][2]) if enc else None
+    return pb
+
+
 def r1_r2_sender(ctx, f, rep):
     rep.rule('C07-R1', 'Runtime::send_to is called from exactly one crate function (send_message) besides the &mut R '
                        'forwarding impl; the header is built from self.identity, self.incarnation, the dst parameter '
@@ -122,7 +131,7 @@ def r1_r2_sender(ctx, f, rep):
                 # limit(taken send_buf, max_packet_size)
                 good = good and q.loads_self_field(lim[0]['args'][1], 'config', 'max_packet_size') and \
                     lim[0]['args'][1][0] == 'unop'
-                took = lim[0]['args'][0]
+                took = q.pre_havoc(lim[0]['args'][0])      # (cleared before or after being taken)
                 good = good and took[0] == 'load' and took[1] == q.self_field('send_buf')
                 # into_inner(buf) feeds send_to
                 data = e['args'][2]
@@ -178,7 +187,7 @@ def r3_sections(ctx, f, rep, tabs):
             if e['kind'] != 'call':
                 continue
             nm = e['res'] or e['decl']
-            touches_buf = any(a[0] == 'ref' and a[2] and show(buffer_id(a), b) == 'buf' for a in e['args'])
+            touches_buf = any(a[0] == 'ref' and a[2] and buffer_id(a) == packet_buf(p) for a in e['args'])
             if touches_buf and nm not in ('bytes::buf::Limit::get_mut',):
                 writers.add(nm)
             g = pred_conds(p, i, b)
@@ -269,7 +278,7 @@ def r4_count(ctx, f, rep):
                           'saved before that call and no further member is encoded or counted', site=e['span'],
                           construct='truncate-on-error')
             if e['kind'] == 'call' and e['decl'] == 'bytes::BufMut::put_u16' and \
-                    not any(a[0] == 'ref' and show(buffer_id(a), b) == 'buf' for a in e['args'][:1]):
+                    not any(a[0] == 'ref' and buffer_id(a) == packet_buf(p) for a in e['args'][:1]):
                 n_patch += 1
                 v = e['args'][1]
                 g = pred_conds(p, i, b)
@@ -517,7 +526,9 @@ def r6_feed(ctx, f, rep):
             if e['res'] == 'member::Members::choose_active_members':
                 n += 1
                 clo = e['args'][4]
-                good = clo[0] == 'agg' and clo[1] == 'closure' and clo[5] == (('ref', ('local', 0, 2), False),)
+                # the capture is (a reference to) the dst parameter of send_message, possibly handed down to a helper
+                cv = e['argvals'][4]
+                good = clo[0] == 'agg' and clo[1] == 'closure' and cv[0] == 'agg' and cv[5] == (('param', 0, 2),)
                 if good:
                     cb, cps = closure_ret(ctx, f, clo[2])
                     good = len(cps) == 1 and cps[0].ret[0] == 'binop' and cps[0].ret[1] == 'Ne' and \
@@ -569,10 +580,10 @@ def r7_scratch(ctx, f, rep):
                        'send_message does not itself refill choice_buf (i.e. never Feed)')
     n = 0
     param_msgs = []
-    for b in f.bodies:
+    for b in f.analysed_bodies():
         if b.nname == 'Foca::send_message' or not b.nname.startswith('Foca::'):
             continue
-        if not any(t['res'].endswith('Foca::<T, C, RNG, B>::send_message') or 'send_message' in t['res'] for _, t in f.calls(b)):
+        if not any('send_message' in t['res'] for _, t in f.calls_deep(b)):
             continue
         for p in ctx.paths(f, b, 'none'):
             popped = False
@@ -610,10 +621,10 @@ def r7_scratch(ctx, f, rep):
     # every fill of choice_buf starts from an empty buffer: the previous choice_buf operation on the path is clear()
     CB = ('ref', q.self_field('choice_buf'), True)
     nf = 0
-    for b in f.bodies:
+    for b in f.analysed_bodies():
         if not b.nname.startswith('Foca::'):
             continue
-        if not any('choose_' in t['res'] for _, t in f.calls(b)):
+        if not any('choose_' in t['res'] for _, t in f.calls_deep(b)):
             continue
         for p in ctx.paths(f, b, 'none'):
             last = None
